@@ -153,6 +153,13 @@ func (rr *RFC3597) fromRFC3597(r RR) error {
 		return err
 	}
 
-	_, err = r.unpack(msg, 0)
-	return err
+	off, err := r.unpack(msg, 0)
+	if err != nil {
+		return err
+	}
+	if off != len(msg) {
+		// As for a record from the wire: the RDATA is exactly what the type's fields take.
+		return &Error{err: "bad rdlength"}
+	}
+	return nil
 }
